@@ -148,6 +148,34 @@ def rules(cs, g):
               ("f'{!r}'", ('EmptyExpression',)), ("f'{:x}'", ('EmptyExpression',)), ("f'{%s %s}'" % (n(), n()), ('InvalidExpression',)),
               ("f'{%s!rr}'" % n(), ('InvalidConversionFlag', 'ExpectedRbrace', 'UnclosedLbrace')), ("f'{%s:{}}'" % n(), ('EmptyExpression',)), ("f'{%s=!}'" % n(), ('InvalidConversionFlag',))]
     ftxt, fk = cs.pick(fcases)
+    if cs.bool(128):
+        # bracket errors inside a replacement field, built from their grammar: openers, an expression, then a closer that does not
+        # match the innermost opener (or that nothing opened), or the end of the literal in the middle of the field's tail
+        OPEN, CLOSE = '([{', ')]}'
+        fp, fq = cs.pick(['f', 'F', 'rf', 'Fr']), cs.pick(["'", '"', "'''", '"""'])
+        opens = [cs.choice(3) for _ in range(cs.choice(3))]
+        j = cs.choice(4)
+        inner = ''.join(OPEN[o] for o in opens) + n()
+        if inner.startswith('{'):
+            inner = ' ' + inner         # (`{{` would be a literal brace)
+        if j == 0 and opens:
+            # wrong closer for the innermost opener
+            w = (opens[-1] + 1 + cs.choice(2)) % 3
+            inner += CLOSE[w] + ''.join(CLOSE[o] for o in reversed(opens[:-1]))
+            ftxt, fk = fp + fq + cs.pick(['', 'a ']) + '{' + inner + '}' + fq, ('MismatchedDelimiter', 'Unmatched', 'UnclosedLbrace')
+        elif j == 1:
+            # a closer that nothing opened, after everything that was opened has been closed
+            inner += ''.join(CLOSE[o] for o in reversed(opens)) + CLOSE[cs.choice(2)]
+            ftxt, fk = fp + fq + '{' + inner + '}' + fq, ('Unmatched', 'MismatchedDelimiter')
+        elif j == 2:
+            # the literal ends inside the field: after the expression, the `!`, the conversion, the `:` or a nested field
+            inner += ''.join(CLOSE[o] for o in reversed(opens)) + cs.pick(['', '!', '!r', '!r:', ':', ':>{', ':{' + n(), '=', '=!', ' '])
+            ftxt, fk = fp + fq + cs.pick(['', 'a']) + '{' + inner + fq, ('UnclosedLbrace', 'ExpectedRbrace', 'InvalidConversionFlag', 'UnterminatedString', 'EmptyExpression')
+        else:
+            # openers never closed before the field's own brace
+            if not opens:
+                inner = OPEN[cs.choice(2)] + n()
+            ftxt, fk = fp + fq + '{' + inner + '}' + fq, ('MismatchedDelimiter', 'UnclosedLbrace', 'Unmatched')
     out.append(('R12_malformed_fstring', 'expr', ftxt, whole(ftxt), lambda e, fk=fk: fs(e, *fk), False))
     # 2-4 adjacent literals, at least one bytes and one text literal, every prefix spelling and quote style, any order
     BP = ['b', 'B', 'rb', 'Rb', 'bR', 'BR', 'br', 'rB']
@@ -164,7 +192,8 @@ def rules(cs, g):
     out.append(('R13_bytes_mixed_with_text', 'expr', t, whole(t), lambda e: other(e, 'cannot mix bytes'), False))
     ch = cs.pick(['é', '中', 'ß', '\U0001f600', '\x80', '\xff', '\u0100']) if cs.bool() else chr(0x80 + cs.choice(0x2f00))
     q = cs.pick(["'", '"', "'''", '"""'])
-    t = cs.pick(BP) + q + cs.pick(['', 'a', '\\x41', 'ab']) + ch + cs.pick(['', 'z']) + q
+    # (directly behind a backslash the character is met by the escape decoder, not by the plain-character path)
+    t = cs.pick(BP) + q + cs.pick(['', 'a', '\\x41', 'ab', '\\', 'a\\', '\\\\', '\\\n', '\\n\\']) + ch + cs.pick(['', 'z']) + q
     out.append(('R14_non_ascii_bytes_literal', 'expr', t, whole(t), lambda e: other(e, 'bytes can only contain ASCII'), False))
     # malformed escapes built from their grammar: too few hex digits, a non-hex digit, a code point above U+10FFFF, \N without
     # or with an unknown / unterminated name; in text and f-string literals (and \x in bytes)
